@@ -1,7 +1,7 @@
 (* RbcBracha: the Bracha argument on the network model of RbcModel (C14): invariants of every schedule (fold_left gstep)
    giving agreement and integrity of the delivered values. *)
 From Coq Require Import ZArith List Bool Lia.
-From LT Require Import RbcModel RbcLemmas RbcOrder RbcStep RbcStep2 RbcStep3 RbcAgreement.
+From LT Require Import RbcModel RbcLemmas RbcOrder RbcStep RbcStep2 RbcStep3 RbcStep4 RbcAgreement.
 Import ListNotations.
 Local Open Scope Z_scope.
 
@@ -1117,6 +1117,86 @@ Proof.
     apply NoDup_incl_length in INC; auto. lia. }
   pose proof (A3 _ _ _ Q2t) as NN. destruct (dbar (gp g q) tg) as [d'|] eqn:Dq; [|congruence].
   f_equal. eapply (dbar_agree g I); eauto.
+Qed.
+
+(* ==== fourth layer: the delivery clause on the FIFO root channel ========================================== *)
+Notation pstep4 := (pstep4 n t H toolong skip).
+
+Definition noswitch (e : event) : bool :=
+  match e with ESetID _ _ _ | ERecoverID _ _ _ | EUnsetID _ _ => false | _ => true end.
+
+Definition bcfact (p : Z) (st st' : pst) (out : list (Z * msg)) : Prop :=
+  (sq st' = sq st /\ forall dst x, In (dst, x) out -> m_act x <> 1) \/
+  (exists v, out = to_all n (Msg (cur st) p (sq st') 1 v) /\ (fifo st = true -> sq st' = sq st + 1)).
+
+Lemma pstep_no_rsend : forall st st' out r off, pstep st st' out r off -> forall dst x, In (dst, x) out -> m_act x <> 1.
+Proof. intros st st' out r off (_ & _ & _ & _ & _ & S & _) dst x I. destruct (S _ _ I) as [N _]. exact N. Qed.
+
+Lemma deliver_from_sq : forall me st i off, sq (o_st (fst (deliver_from n t skip H toolong me st i off))) = sq st.
+Proof.
+  intros me st i off. unfold RbcModel.deliver_from. destruct ((i <? 0) || (i >=? n)); [reflexivity|].
+  destruct (take_chan (cur st) [] (fbuf st i)) as [[v rest]|]; [reflexivity|].
+  pose proof (deliver_spec n t skip H toolong me st off) as [(_ & C2 & _) _].
+  destruct (o_res (deliver n t skip H toolong me st off)); cbn; auto.
+Qed.
+
+Lemma gstep_cases4 : forall g e, noswitch e = true ->
+  gstep g e = g \/
+  exists p st' out r offer,
+    hon p /\ qstep (gp g p) st' out r offer /\ pstep2 (gp g p) st' out r offer /\ pstep3 (gp g p) st' out offer /\
+    pstep4 (gp g p) st' out r offer /\
+    cur st' = cur (gp g p) /\ fifo st' = fifo (gp g p) /\ dres_ok skip (gp g p) st' r /\ bcfact p (gp g p) st' out /\
+    (forall l m, offer = Some (l, m) -> can_recv n byz g p l m = true) /\
+    gp (gstep g e) = updZ (gp g) p st' /\
+    gsent (gstep g e) = gsent g ++ tagged p out /\
+    glog (gstep g e) = glog g ++ log_of p r.
+Proof.
+  intros g e NS. destruct e; try discriminate; cbn [RbcModel.gstep].
+  - destruct (honest n byz p) eqn:Hp; auto. right. unfold broadcast.
+    set (s' := if fifo (gp g p) then sq (gp g p) + 1 else coin).
+    exists p, (set_sq (gp g p) s'), (to_all n (Msg (cur (gp g p)) p s' 1 m)), RNone, None.
+    split; [exact Hp|]. split; [|split; [|split; [|split; [|split; [reflexivity|split; [reflexivity|split; [cbn; auto|split; [|split; [discriminate|cbn; rewrite app_nil_r; auto]]]]]]]]].
+    5: { right. exists m. split; [reflexivity|]. intros F. unfold s'. cbn. rewrite F. reflexivity. }
+    + apply qstep_same; [repeat split|]. intros dst x I. apply in_to_all in I. subst. reflexivity.
+    + apply pstep2_same; auto. intros dst x I. apply in_to_all in I. subst. cbn. lia.
+    + apply pstep3_same; auto. intros dst x I. apply in_to_all in I. subst. cbn. discriminate.
+    + apply pstep4_same; auto. intros dst x I. apply in_to_all in I. subst. cbn. auto.
+  - destruct (honest n byz p && can_recv n byz g p l m) eqn:G; auto. right. apply andb_true_iff in G. destruct G as [Hp C].
+    pose proof (deliver_spec n t skip H toolong p (gp g p) (Some (l, m))) as [(C1 & C2 & C3 & _) DR].
+    eexists p, _, _, _, (Some (l, m)). split; [exact Hp|]. split; [apply pstep_qstep; apply (deliver_pstep n t H toolong skip)|].
+    split; [apply (deliver_pstep2 n t H toolong skip)|]. split; [apply (deliver_pstep3 n t H toolong skip)|].
+    split; [apply (deliver_pstep4 n t H toolong skip)|]. split; [symmetry; exact C1|]. split; [symmetry; exact C3|]. split; [exact DR|].
+    split; [left; split; [symmetry; exact C2|eapply pstep_no_rsend; apply (deliver_pstep n t H toolong skip)]|].
+    split; [intros l0 m0 E; inversion E; subst; exact C|]. cbn. auto.
+  - destruct (honest n byz p) eqn:Hp; auto. right.
+    pose proof (deliver_spec n t skip H toolong p (gp g p) None) as [(C1 & C2 & C3 & _) DR].
+    eexists p, _, _, _, None. split; [exact Hp|]. split; [apply pstep_qstep; apply (deliver_pstep n t H toolong skip)|].
+    split; [apply (deliver_pstep2 n t H toolong skip)|]. split; [apply (deliver_pstep3 n t H toolong skip)|].
+    split; [apply (deliver_pstep4 n t H toolong skip)|]. split; [symmetry; exact C1|]. split; [symmetry; exact C3|]. split; [exact DR|].
+    split; [left; split; [symmetry; exact C2|eapply pstep_no_rsend; apply (deliver_pstep n t H toolong skip)]|].
+    split; [discriminate|]. cbn. auto.
+  - destruct (honest n byz p && can_recv n byz g p l m) eqn:G; auto. right. apply andb_true_iff in G. destruct G as [Hp C].
+    pose proof (deliver_from_spec n t skip H toolong p (gp g p) i (Some (l, m))) as DS. cbv zeta in DS. destruct DS as (C1 & C3 & DR & _).
+    eexists p, _, _, _, (Some (l, m)). split; [exact Hp|].
+    split; [apply pstep_qstep; apply (deliver_from_pstep n t H toolong skip p (gp g p) i (Some (l, m)))|].
+    split; [apply (deliver_from_pstep2 n t H toolong skip p (gp g p) i (Some (l, m)))|].
+    split; [apply (deliver_from_pstep3 n t H toolong skip p (gp g p) i (Some (l, m)))|].
+    split; [apply (deliver_from_pstep4 n t H toolong skip p (gp g p) i (Some (l, m)))|].
+    split; [exact C1|]. split; [exact C3|]. split; [exact DR|].
+    split; [left; split; [apply deliver_from_sq|eapply pstep_no_rsend; apply (deliver_from_pstep n t H toolong skip p (gp g p) i (Some (l, m)))]|].
+    split; [intros l0 m0 E; inversion E; subst; exact C|]. unfold apply_from.
+    destruct (snd (deliver_from n t skip H toolong p (gp g p) i (Some (l, m)))); cbn; auto.
+  - destruct (honest n byz p) eqn:Hp; auto. right.
+    pose proof (deliver_from_spec n t skip H toolong p (gp g p) i None) as DS. cbv zeta in DS. destruct DS as (C1 & C3 & DR & _).
+    eexists p, _, _, _, None. split; [exact Hp|].
+    split; [apply pstep_qstep; apply (deliver_from_pstep n t H toolong skip p (gp g p) i None)|].
+    split; [apply (deliver_from_pstep2 n t H toolong skip p (gp g p) i None)|].
+    split; [apply (deliver_from_pstep3 n t H toolong skip p (gp g p) i None)|].
+    split; [apply (deliver_from_pstep4 n t H toolong skip p (gp g p) i None)|].
+    split; [exact C1|]. split; [exact C3|]. split; [exact DR|].
+    split; [left; split; [apply deliver_from_sq|eapply pstep_no_rsend; apply (deliver_from_pstep n t H toolong skip p (gp g p) i None)]|].
+    split; [discriminate|]. unfold apply_from.
+    destruct (snd (deliver_from n t skip H toolong p (gp g p) i None)); cbn; auto.
 Qed.
 
 (* ---- the full liveness clause of C14, as a statement (NOT proved; totality_digest above is the part that is) -------- *)
